@@ -49,7 +49,7 @@ def sweep(ctx, binary, prop, count, seed_salt=0, timeout=1800):
             continue
         if p.get("_crashed"):
             continue
-        for k in agg:
+        for k in ("evaluations", "distinct", "chain_checks", "virtual_clock_reads"):
             agg[k] += p.get(k, 0)
         for k, v in p["cells"].items():
             cells[k] = cells.get(k, 0) + v
@@ -58,6 +58,12 @@ def sweep(ctx, binary, prop, count, seed_salt=0, timeout=1800):
         viol += p["violations"]
         samples += p["samples"][:1]
         blurs.add(p.get("blur_ns"))
+        h = p.get("hostile", {})
+        hs = agg.setdefault("hostile_caller_state", {"errno_values": 0, "shards_with_signals": 0, "signals_delivered": 0, "shards_with_unwritable_stderr": 0})
+        hs["errno_values"] = max(hs["errno_values"], h.get("errno_values", 0))
+        hs["shards_with_signals"] += bool(h.get("signals"))
+        hs["signals_delivered"] += h.get("signals_delivered", 0)
+        hs["shards_with_unwritable_stderr"] += bool(h.get("stderr_unwritable"))
         agg["distinct_capped"] = agg.get("distinct_capped", False) or p.get("distinct_capped", False)
     agg["blur_ns"] = sorted(b for b in blurs if b is not None)
     agg["cells"] = cells
